@@ -22,10 +22,7 @@ emu_ev(struct emu_ev *ev, const struct ovni_ev *oev,
 	if (ev->payload_size > 0) {
 		ev->has_payload = 1;
 		ev->payload = &oev->payload;
-
-		if (oev->header.flags & OVNI_EV_JUMBO) {
-			ev->is_jumbo = 1;
-		}
+		ev->is_jumbo = (oev->header.flags & OVNI_EV_JUMBO) ? 1 : 0;
 	} else {
 		ev->has_payload = 0;
 		ev->payload = NULL;
